@@ -84,6 +84,9 @@ def generate(assume_some=None, custom=None):
                     # accessors of an immutable tree are functions of the node
                     spec_decl = "    pub uninterp spec fn sp_%s(&self) -> %s;" % (name, rty)
                     ens.append("r == self.sp_%s()" % name)
+                if rty == '::std::string::String':
+                    spec_decl = "    pub uninterp spec fn sp_%s(&self) -> Seq<char>;" % name
+                    ens.append("r@ == self.sp_%s()" % name)
                 if (ty, name) in assume_some:
                     ens.append("r is Some /* %s */" % assume_some[(ty, name)])
                     used_some.add((ty, name))
